@@ -25,7 +25,7 @@ PLAN = {"quick": {"cases": 1200, "jobs": 4, "timeout": 600},
         "thorough": {"cases": 500000, "jobs": 16, "timeout": 3000, "budget_s": 360}}
 FLOORS = {"quick": {"c13.notes_position_checked": 3000, "c13.signature_position_checked": 500, "c13.long_track": 50,
                     "c13.omitted_track": 150, "c13.merged_group": 200, "c13.non_dyadic_resolution": 250, "c13.union_groups_checked": 150,
-                    "c13.note_collapsing_to_zero_length": 300, "c13.unrepresented_message_written": 1500},
+                    "c13.note_collapsing_to_zero_length": 300, "c13.unrepresented_message_written": 1500, "c13.file_object_converted_twice": 100},
           "thorough": {"c13.notes_position_checked": 150000}}
 TPB = [24, 48, 96, 100, 120, 192, 384, 480, 960, 7, 32767]
 KEYS_MIDO = ["C", "G", "D", "A", "E", "B", "F#", "C#", "F", "Bb", "Eb", "Ab", "Db", "Gb", "Cb", "Am", "Em", "Dm", "F#m", "Ebm"]
@@ -241,7 +241,14 @@ def run(case, ctx):
                                               target_meta_track_index=target)
             else:
                 from scoda.midi.midi_file import MidiFile
-                out = Sequence.sequences_load(midi_file=MidiFile.open(path), track_indices=[list(g) for g in groups],
+                # one opened file object converted more than once (another grouping first, then the one under test): converting
+                # must not consume or rewrite what the object holds
+                mf = MidiFile.open(path)
+                if len(case["tracks"]) != 3:
+                    LOG.n("c13.file_object_converted_twice")
+                    mf.convert([[k] for k in range(len(case["tracks"]))], list(range(len(case["tracks"]))), 0)
+                    Sequence.sequences_load(midi_file=mf)
+                out = Sequence.sequences_load(midi_file=mf, track_indices=[list(g) for g in groups],
                                               meta_track_indices=list(meta), target_meta_track_index=target)
     finally:
         os.remove(path)
